@@ -132,6 +132,22 @@ class ExprMixin:
     def e_JoinedStr(self, node, frame):
         parts = []
         concrete = True
+        fparts = []
+        fmt_ok = True
+        for v in node.values:
+            if isinstance(v, ast.Constant):
+                fparts.append(v.value)
+            else:
+                val0 = self.eval(v.value, frame)
+                if isinstance(val0, Sym) and val0.kind == "int" and v.conversion == -1 and v.format_spec is None:
+                    fparts.append(val0)
+                elif isinstance(val0, (int, str)) and not isinstance(val0, bool) and v.conversion == -1 and v.format_spec is None:
+                    fparts.append(str(val0))
+                else:
+                    fmt_ok = False
+        if fmt_ok and any(isinstance(x, Sym) for x in fparts):
+            from .values import FmtStr
+            return FmtStr(fparts)
         for v in node.values:
             if isinstance(v, ast.Constant):
                 parts.append(v.value)
@@ -223,12 +239,20 @@ class ExprMixin:
                     return cur
                 cur = self.eval(nxt, frame)
                 continue
-            if _is_simple(nxt) and isinstance(cur, Sym) and cur.kind == "bool":
+            if (_is_simple(nxt) or getattr(self, "spec_depth", 0) > 0) and isinstance(cur, Sym) and cur.kind == "bool":
                 # pure right operand: build the connective instead of forking
                 mark = len(self.path.pc)
-                r = self.eval(nxt, frame)
-                if len(self.path.pc) != mark:
-                    raise Unsupported("decision inside a 'simple' boolean operand")
+                if _is_simple(nxt):
+                    r = self.eval(nxt, frame)
+                    if len(self.path.pc) != mark:
+                        raise Unsupported("decision inside a 'simple' boolean operand")
+                else:
+                    # specification context: operands are total, evaluate without short-circuit forking
+                    from .interp_call import NoFeasiblePath
+                    try:
+                        r = self.pure(lambda: self.eval(nxt, frame), assume=(t if is_and else z3.Not(t)))
+                    except NoFeasiblePath:
+                        return cur
                 rt = self.truthy(r)
                 if isinstance(r, (bool, Sym)) and (isinstance(r, bool) or r.kind == "bool"):
                     rz = z3.BoolVal(rt) if isinstance(rt, bool) else rt
@@ -626,7 +650,7 @@ class ExprMixin:
                 return self.call_value(BoundMethod(m[0], base, m[1]), [idx], {})
         seq = self.as_seq(base)
         if seq is not None:
-            return seqops.get(self.path, seq, idx)
+            return seqops.get(self.path, seq, idx, unchecked=(getattr(self, 'pure_depth', 0) > 0 or getattr(self, 'spec_depth', 0) > 0))
         if isinstance(base, (Sym, Opaque)) or isinstance(idx, (Sym, SeqV)):
             if isinstance(base, (dict,)) and isinstance(idx, Sym):
                 raise Unsupported("symbolic key into concrete python dict")
